@@ -98,7 +98,12 @@ def _case(draw):
     style = draw(st.sampled_from(['random', 'mutated', 'mutated', 'hostile', 'hostile', 'mixed']))
     parts = []
     if style == 'random':
-        parts.append(draw(st.binary(min_size=1, max_size=80)))
+        if draw(st.integers(0, 5)) == 0:
+            # kilobytes of noise (longer than any frame, longer than a receive buffer)
+            blob = draw(st.binary(min_size=8, max_size=64))
+            parts.append((blob * (draw(st.integers(300, 4000)) // len(blob) + 1)))
+        else:
+            parts.append(draw(st.binary(min_size=1, max_size=80)))
     if style in ('mutated', 'mixed'):
         n = draw(st.integers(1, 4))
         stream = b''.join(refframe.build(framing, uid, draw(_valid_write(i)), i + 1, 0) for i in range(n))
